@@ -1,6 +1,8 @@
 (* The representation strings of HEAD formulas (theory/head.py: FormulaToStr - the key under which Theory.add_formula shares head formulas), REGENERATED
    method by method (Gen/FromReps.v: hrep_*_gen), are injective on the head formulas of the model (Model/HeadShift.v: atoms with classical sign, constants,
-   negation, n-fold weak / strong next, until / release with and without left operand, conjunction, disjunction).  Token level, as for the body classes. *)
+   negation, n-fold weak / strong next, until / release with and without left operand, conjunction, disjunction).  The literal pieces of the format strings are taken character by character, as for the body classes; since an atom of a head
+   formula is printed without parentheses around it (`p` is a prefix of `p(1)`), the statement is proved for representations followed by what can follow a
+   sub-formula inside a representation: nothing, a closing parenthesis, or the first character of a binary operator. *)
 From Coq Require Import List Bool Arith String Ascii Lia.
 Require Import GenPrelude FromReps HeadShift.
 Import ListNotations.
@@ -26,40 +28,55 @@ Fixpoint hsize (f : hf) : nat :=
   | HNeg _ x | HNx _ _ _ x | HUn1 _ _ x => S (hsize x)
   | HUn _ _ x y | HAnd _ x y | HOr _ x y => S (hsize x + hsize y)
   end.
+Definition flat1 (t : rtok) : list rtok := match t with RL s => map RC (list_ascii_of_string s) | t => [t] end.
+Definition flat (l : list rtok) : list rtok := flat_map flat1 l.
+Lemma flat_app a b : flat (a ++ b) = flat a ++ flat b.  Proof. apply flat_map_app. Qed.
+Definition chrep (f : hf) : list rtok := flat (hrep f).
+(* what can stand behind a sub-formula *)
+Definition follows (s : list rtok) : Prop :=
+  match s with [] => True | RC c :: _ => c = ")"%char \/ c = "&"%char \/ c = "|"%char \/ c = ">"%char | _ => False end.
 Ltac unfold_hreps := unfold hrep_atom_gen, hrep_constant_gen, hrep_negation_gen, hrep_next_gen, hrep_until_gen, hrep_clause2_gen, args_tok in *.
 Ltac hnorm := repeat rewrite <- app_assoc in *; cbn [app option_map] in *.
 Ltac hsmall := repeat match goal with b : bool |- _ => destruct b | o : option nat |- _ => destruct o end.
-(* a sub-formula against literal tokens: one look inside the sub-formula decides *)
-Ltac sub_vs_tokens H a := destruct a as [[[? ?] ?]|?|?|? ? ?|? ? ?|? ?|? ?|? ?]; cbn [hrep] in H; unfold_hreps; hsmall; hnorm; first [discriminate H | (injection H; intros; discriminate)].
-Ltac hcompare Sub :=
-  repeat (hnorm; match goal with
-  | E : hrep ?a ++ _ = hrep ?b ++ _ |- _ => apply Sub in E; [destruct E as [? ?] | cbn [hsize] in *; lia]
-  | E : hrep ?a ++ _ = _ :: _ |- _ => exfalso; sub_vs_tokens E a
-  | E : _ :: _ = hrep ?a ++ _ |- _ => exfalso; symmetry in E; sub_vs_tokens E a
+Ltac hflatten E := unfold chrep in E; cbn [hrep] in E; unfold_hreps; hsmall; repeat rewrite flat_app in E; cbn [flat flat_map flat1 list_ascii_of_string map app option_map] in E.
+Ltac solve_follows := cbn [follows app]; first [exact I | tauto | (left; reflexivity) | (right; left; reflexivity) | (right; right; left; reflexivity) | (right; right; right; reflexivity)].
+Ltac absurd_follows :=
+  match goal with
+  | F : follows (_ :: _) |- _ => cbn [follows] in F; first [contradiction | (destruct F as [F|[F|[F|F]]]; discriminate F)]
+  end.
+(* a sub-formula against literal characters: one look inside the sub-formula decides *)
+Ltac sub_vs_tokens H a RF :=
+  destruct a as [[[? ?] ?]|?|?|? ? ?|? ? ?|? ?|? ?|? ?]; rewrite <- RF in H; hflatten H; hnorm; first [discriminate H | (injection H; intros; discriminate)].
+Ltac hcompare Sub RF :=
+  repeat (hnorm; repeat rewrite RF in *; match goal with
+  | E : chrep ?a ++ _ = chrep ?b ++ _ |- _ => apply Sub in E; [destruct E as [? ?] | cbn [hsize] in *; lia | solve_follows | solve_follows]
+  | E : chrep ?a ++ _ = _ :: _ |- _ => exfalso; sub_vs_tokens E a RF
+  | E : _ :: _ = chrep ?a ++ _ |- _ => exfalso; symmetry in E; sub_vs_tokens E a RF
   | E : _ :: _ = _ :: _ |- _ => first [discriminate E | injection E; clear E; intros]
-  | E : RL _ = RL _ |- _ => first [discriminate E | clear E]
+  | E : RC _ = RC _ |- _ => first [discriminate E | clear E]
   | E : RN _ = RN _ |- _ => injection E; clear E; intros
   | E : RName _ = RName _ |- _ => injection E; clear E; intros
   | E : RArgs _ = RArgs _ |- _ => injection E; clear E; intros
   end).
-Theorem hrep_injective_gen : forall n x, hsize x <= n -> forall y s s', hrep x ++ s = hrep y ++ s' -> x = y /\ s = s'.
+Theorem hrep_injective_gen : forall n x, hsize x <= n -> forall y s s', follows s -> follows s' -> chrep x ++ s = chrep y ++ s' -> x = y /\ s = s'.
 Proof.
-  induction n as [|n IH]; intros x Sx y s s' E.
+  induction n as [|n IH]; intros x Sx y s s' Fs Fs' E.
   - destruct x; cbn in Sx; lia.
-  - assert (forall a b r r', hsize a <= n -> hrep a ++ r = hrep b ++ r' -> a = b /\ r = r') as Sub by (intros a b r r' Sa; now apply IH).
+  - assert (forall a b r r', hsize a <= n -> follows r -> follows r' -> chrep a ++ r = chrep b ++ r' -> a = b /\ r = r') as Sub by (intros a b r r' Sa F1 F2; now apply IH).
+    assert (forall f : hf, flat_map flat1 (hrep f) = chrep f) as RF by reflexivity.
     clear IH.
     destruct x as [[[p1 n1] a1]|b1|x1|m1 w1 x1|u1 l1 r1|u1 r1|x1 y1|x1 y1];
     destruct y as [[[p2 n2] a2]|b2|x2|m2 w2 x2|u2 l2 r2|u2 r2|x2 y2|x2 y2];
-    cbn [hrep hsize] in E, Sx; unfold_hreps; hsmall; hnorm; try discriminate E;
-    hcompare Sub; subst; split; reflexivity.
+    cbn [hsize] in Sx; hflatten E; hnorm; try discriminate E;
+    hcompare Sub RF; subst; try absurd_follows; split; reflexivity.
 Qed.
-Theorem hrep_injective (f g : hf) : hrep f = hrep g -> f = g.
+Theorem hrep_injective (f g : hf) : flat (hrep f) = flat (hrep g) -> f = g.
 Proof.
-  intros E. assert (hrep f ++ [] = hrep g ++ []) as E' by now rewrite !app_nil_r.
-  exact (proj1 (hrep_injective_gen (hsize f) f (le_n _) g [] [] E')).
+  intros E. assert (chrep f ++ [] = chrep g ++ []) as E' by (unfold chrep; now rewrite !app_nil_r).
+  exact (proj1 (hrep_injective_gen (hsize f) f (le_n _) g [] [] I I E')).
 Qed.
 (* the arguments of an atom are separated by a comma in both representations (so p(1,2) and p(12) print differently) *)
 Lemma argument_separators : hrep_args_separator_gen = "," /\ rep_args_separator_gen = ",".
 Proof. split; reflexivity. Qed.
-Example head_weak_and_strong_differ : hrep (HNx _ 1 true (HAt _ (true, 0, None))) <> hrep (HNx _ 1 false (HAt _ (true, 0, None))).
+Example head_weak_and_strong_differ : flat (hrep (HNx _ 1 true (HAt _ (true, 0, None)))) <> flat (hrep (HNx _ 1 false (HAt _ (true, 0, None)))).
 Proof. intros E; discriminate E. Qed.
